@@ -122,6 +122,12 @@ theorem C09_tv_difference {K : Type} [Field K] (circular : Bool) (x : List K) :
       else if circular then x.getD 0 0 - x.getD i 0 else 0 :=
   ⟨diffAppend_length circular x, fun i hi => diffAppend_getD circular x i hi⟩
 
+/-- on a 1-D array the N-d index formula the TV model is written with (`fdAxis`) is that
+    code-shaped difference, for every length and both boundary modes -/
+theorem C09_tv_model_1d {K : Type} [Field K] (circular : Bool) (x : List K) :
+    fdAxis circular [x.length] 0 x = diffAppend circular x :=
+  fdAxis_1d circular x
+
 example : diffAppend false [(1 : ℤ), 2, 4] = [1, 2, 0] := by decide
 example : diffAppend true [(1 : ℤ), 2, 4] = [1, 2, -3] := by decide
 -- N-d index formula used by the TV model, 2×3 image, axis 1, append=0 and circular
